@@ -9,7 +9,7 @@ def places (s : Sys) : List Nat :=
   s.todo ++ s.checked ++ s.outQ ++ s.pending ++ s.sendQ ++ s.oh.held ++ s.done
 
 def OPhase.busy : OPhase → Nat
-  | .holding _ | .wrote _ _ | .owesDone => 1
+  | .holding _ | .announced _ | .wrote _ _ | .owesDone => 1
   | _ => 0
 
 /-- Tokens of the queueHandler/outHandler hand-off: at most one message is between
@@ -25,18 +25,40 @@ structure CtlInv (s : Sys) : Prop where
   osend : s.oh = .done → s.sendQ = []
   busy1 : busy s ≤ 1
   idle : s.waiting = false → busy s = 0 ∧ s.pending = []
+  stall1 : s.stallCh ≤ 1
+  indisc : s.inDone = true → s.disc = true
 
 theorem ctl_init (ids : List Nat) : CtlInv (init ids) := by
   constructor <;> simp [init, busy, OPhase.busy]
 
 theorem ctl_step (c : Cfg) (s : Sys) (ch : Choice) (h : CtlInv s) : CtlInv (step c s ch) := by
-  obtain ⟨h1, h2, h3, h4, h5, h6, h7⟩ := h
+  obtain ⟨h1, h2, h3, h4, h5, h6, h7, h8, h9⟩ := h
   unfold step
   cases ch <;> simp only [stepOpt]
   all_goals (repeat' split)
   all_goals (simp only [Option.getD_some, Option.getD_none])
-  all_goals (first | exact ⟨h1, h2, h3, h4, h5, h6, h7⟩ | skip)
+  all_goals (first | exact ⟨h1, h2, h3, h4, h5, h6, h7, h8, h9⟩ | skip)
   all_goals (constructor <;> simp_all [busy, OPhase.busy] <;> try omega)
+
+/-- Stall-handler invariant of the repaired handler: it is gone only when both the in and the
+out handler are. -/
+structure StallInv (s : Sys) : Prop where
+  seen : ∀ si so, s.sh = .running si so →
+    (si = true → s.inDone = true) ∧ (so = true → s.oh = .done) ∧ ¬(si = true ∧ so = true)
+  gone : s.sh = .done → s.oh = .done ∧ s.inDone = true
+
+theorem stall_init (ids : List Nat) : StallInv (init ids) := by
+  constructor <;> simp [init]
+
+theorem stall_step (c : Cfg) (hb : c.stallBug = false) (s : Sys) (ch : Choice) (h : StallInv s) :
+    StallInv (step c s ch) := by
+  obtain ⟨h1, h2⟩ := h
+  unfold step
+  cases ch <;> simp only [stepOpt]
+  all_goals (repeat' split)
+  all_goals (simp only [Option.getD_some, Option.getD_none])
+  all_goals (first | exact ⟨h1, h2⟩ | skip)
+  all_goals (constructor <;> simp_all)
 
 
 /-! ### every message is in exactly one place -/
@@ -218,6 +240,11 @@ theorem fifo_exec (c : Cfg) :
   | [], _, h1, h2 => ⟨h1, h2⟩
   | ch :: rest, s, h1, h2 => fifo_exec c rest _ (ctl_step c s ch h1) (fifo_step c s ch h1 h2)
 
+theorem stall_exec (c : Cfg) (hb : c.stallBug = false) :
+    ∀ (sched : List Choice) (s : Sys), StallInv s → StallInv (exec c s sched)
+  | [], _, h => h
+  | ch :: rest, s, h => stall_exec c hb rest _ (stall_step c hb s ch h)
+
 theorem done_count_le (ids : List Nat) (hn : ids.Nodup) (s : Sys) (h : Inv ids s) (m : Nat) :
     s.done.count m ≤ 1 := by
   have h1 := h.cnt m
@@ -232,11 +259,11 @@ theorem done_exactly_once (ids : List Nat) (hn : ids.Nodup) (s : Sys) (h : Inv i
   obtain ⟨a, b, c', d⟩ := h.sb m hm
   simp only [final, decide_eq_true_eq] at hf
   have hp := h.ctl.qpend (Or.inr hf.1)
-  have hs := h.ctl.osend hf.2
+  have hs := h.ctl.osend hf.2.1
   have c0 : s.todo.count m = 0 := List.count_eq_zero.2 a
   have c1 : s.checked.count m = 0 := List.count_eq_zero.2 b
   have c2 : s.outQ.count m = 0 := List.count_eq_zero.2 (c' hf.1)
-  simp only [places, List.count_append, hp, hs, hf.2, OPhase.held, List.count_nil] at h1
+  simp only [places, List.count_append, hp, hs, hf.2.1, OPhase.held, List.count_nil] at h1
   omega
 
 /-- Complete accounting: when the handlers are done and no caller is still inside
@@ -251,8 +278,8 @@ theorem all_done_once (ids : List Nat) (hn : ids.Nodup) (s : Sys) (h : Inv ids s
     omega
   simp only [final, decide_eq_true_eq] at hf
   have hp := h.ctl.qpend (Or.inr hf.1)
-  have hs := h.ctl.osend hf.2
-  simp only [places, List.count_append, hp, hs, hf.2, OPhase.held, List.count_nil, h0, h1, h2] at hc
+  have hs := h.ctl.osend hf.2.1
+  simp only [places, List.count_append, hp, hs, hf.2.1, OPhase.held, List.count_nil, h0, h1, h2] at hc
   omega
 
 /-! ### termination -/
@@ -261,13 +288,17 @@ def QPhase.w : QPhase → Nat
   | .main => 3 | .drain => 2 | .cleanup => 1 | .done => 0
 
 def OPhase.w : OPhase → Nat
-  | .main => 3 | .holding _ => 8 | .wrote _ _ => 7 | .owesDone => 5 | .waitQ => 2
-  | .cleanup => 1 | .done => 0
+  | .main => 3 | .holding _ => 10 | .announced _ => 8 | .wrote _ _ => 7 | .owesDone => 5
+  | .waitQ => 2 | .cleanup => 1 | .done => 0
+
+def SPhase.w : SPhase → Nat
+  | .running si so => if si || so then 2 else 3
+  | .done => 0
 
 def measure (s : Sys) : Nat :=
-  10 * s.todo.length + 9 * s.checked.length + 8 * s.outQ.length + 7 * s.pending.length +
-    6 * s.sendQ.length + s.oh.w + s.qh.w + s.sendDone +
-    (if s.disc then 0 else 1) + (if s.connLost then 0 else 1)
+  12 * s.todo.length + 11 * s.checked.length + 10 * s.outQ.length + 9 * s.pending.length +
+    8 * s.sendQ.length + s.oh.w + s.qh.w + s.sendDone + s.sh.w + s.stallCh +
+    (if s.disc then 0 else 1) + (if s.connLost then 0 else 1) + (if s.inDone then 0 else 1)
 
 theorem step_decreases (c : Cfg) (s s' : Sys) (ch : Choice) (h : stepOpt c s ch = some s') :
     measure s' < measure s := by
@@ -291,7 +322,7 @@ theorem step_decreases (c : Cfg) (s s' : Sys) (ch : Choice) (h : stepOpt c s ch 
   all_goals (repeat' split at h)
   all_goals (first | (cases h; done) | skip)
   all_goals (simp only [Option.some.injEq] at h; subst h)
-  all_goals (simp_all [measure, QPhase.w, OPhase.w] <;> try omega)
+  all_goals (simp_all [measure, QPhase.w, OPhase.w, SPhase.w] <;> (try split) <;> (try simp_all) <;> try omega)
 
 /-- Number of scheduler choices of `sched` that were enabled when taken. -/
 def effective (c : Cfg) : Sys → List Choice → Nat
@@ -312,27 +343,52 @@ theorem effective_le (c : Cfg) : ∀ (sched : List Choice) (s : Sys),
       simp [hs] at ih ⊢; omega
 
 /-- After the disconnect request, as long as a handler goroutine is still alive one of the
-handler actions is enabled (no deadlock among queueHandler / outHandler). -/
-theorem progress (c : Cfg) (s : Sys) (hc : CtlInv s) (hd : s.disc = true) (hf : final s = false) :
-    (stepOpt c s .qQuit).isSome ∨ (stepOpt c s .qStep).isSome ∨
-      (stepOpt c s .oQuit).isSome ∨ (stepOpt c s .oStep).isSome := by
+handler actions is enabled (no deadlock among queueHandler / outHandler / inHandler /
+stallHandler) — for the repaired stall handler. -/
+theorem progress (c : Cfg) (s : Sys) (hc : CtlInv s) (hst : StallInv s)
+    (hd : s.disc = true) (hf : final s = false) :
+    ∃ ch ∈ [Choice.qQuit, .qStep, .oQuit, .oStep, .iExit, .sRecv, .sInQuit, .sOutQuit],
+      (stepOpt c s ch).isSome := by
   have hb := hc.busy1
+  have hs1 := hc.stall1
   cases hq : s.qh with
-  | main => left; simp [stepOpt, hq, hd]
-  | drain => right; left; simp only [stepOpt, hq]; split <;> simp
-  | cleanup => right; left; simp only [stepOpt, hq]; split <;> simp
+  | main => exact ⟨.qQuit, by simp, by simp [stepOpt, hq, hd]⟩
+  | drain => exact ⟨.qStep, by simp, by simp only [stepOpt, hq]; split <;> simp⟩
+  | cleanup => exact ⟨.qStep, by simp, by simp only [stepOpt, hq]; split <;> simp⟩
   | done =>
-    right; right
     cases ho : s.oh with
-    | main => left; simp [stepOpt, ho, hd]
-    | holding m => right; simp [stepOpt, ho, hd]
-    | wrote m ok => right; simp [stepOpt, ho]
+    | main => exact ⟨.oQuit, by simp, by simp [stepOpt, ho, hd]⟩
+    | holding m =>
+      by_cases hfull : s.stallCh < 1
+      · exact ⟨.oStep, by simp, by simp [stepOpt, ho, hfull]⟩
+      · -- the buffer is full: the stall handler is still there (it leaves only after outHandler)
+        cases hsh : s.sh with
+        | done => have := (hst.gone hsh).1; simp [ho] at this
+        | running si so =>
+          refine ⟨.sRecv, by simp, ?_⟩
+          have : 0 < s.stallCh := by omega
+          simp [stepOpt, hsh, this]
+    | announced m => exact ⟨.oStep, by simp, by simp only [stepOpt, ho]; split <;> (try split) <;> simp⟩
+    | wrote m ok => exact ⟨.oStep, by simp, by simp [stepOpt, ho]⟩
     | owesDone =>
-      right
       have : s.sendDone = 0 := by simp [busy, OPhase.busy, ho] at hb; omega
-      simp [stepOpt, ho, this]
-    | waitQ => right; simp [stepOpt, ho, hq]
-    | cleanup => right; simp only [stepOpt, ho]; split <;> simp
-    | done => simp [final, hq, ho] at hf
+      exact ⟨.oStep, by simp, by simp [stepOpt, ho, this]⟩
+    | waitQ => exact ⟨.oStep, by simp, by simp [stepOpt, ho, hq]⟩
+    | cleanup => exact ⟨.oStep, by simp, by simp only [stepOpt, ho]; split <;> simp⟩
+    | done =>
+      cases hin : s.inDone with
+      | false => exact ⟨.iExit, by simp, by simp [stepOpt, hd, hin]⟩
+      | true =>
+        cases hsh : s.sh with
+        | done => simp [final, hq, ho, hin, hsh] at hf
+        | running si so =>
+          cases si with
+          | false => exact ⟨.sInQuit, by simp, by simp [stepOpt, hsh, hin]; split <;> simp⟩
+          | true =>
+            cases so with
+            | false => exact ⟨.sOutQuit, by simp, by simp [stepOpt, hsh, ho]⟩
+            | true =>
+              -- both observed cannot persist: the second observation leaves
+              exact absurd ⟨rfl, rfl⟩ (hst.seen true true hsh).2.2
 
 end BV.C18.Pipe
